@@ -93,16 +93,21 @@ theorem push_single (interp : Nat → Val → Option Nat) (s : Stk) (v : Val) (h
         | succ k => right; simp [takeRoom]
     · left; cases s.opts.room <;> simp [takeRoom]
   | some p =>
-    obtain ⟨a, b, c⟩ := methodAppend_spec (interp p) [v] s hwf (by simpa using hs)
-    refine ⟨?_, ?_, c⟩
-    · rw [a]
-      simp only [pushPol]
-      split
-      · left; simp
-      · split
+    simp only [List.filter_cons, List.filter_nil]
+    cases hc : s.canPushNester v with
+    | false => simpa [methodAppend] using hwf
+    | true =>
+      simp only [↓reduceIte]
+      obtain ⟨a, b, c⟩ := methodAppend_spec (interp p) [v] s hwf (by simpa using hs)
+      refine ⟨?_, ?_, c⟩
+      · rw [a]
+        simp only [pushPol]
+        split
         · left; simp
-        · right; simp
-    · rw [b]; split <;> rfl
+        · split
+          · left; simp
+          · right; simp
+      · rw [b]; split <;> rfl
 
 end Stk
 end Stackage
